@@ -41,9 +41,12 @@ func TestMain(m *testing.M) { harness.Main(m) }
 
 // ---- models and data --------------------------------------------------------------------
 
+// Company is soft-deleted too: joined by relation name from User, its ON filter
+// depends on the outer statement's Unscoped flag.
 type Company struct {
-	ID   uint
-	Name string
+	ID        uint
+	Name      string
+	DeletedAt gorm.DeletedAt
 }
 
 type User struct {
@@ -83,16 +86,16 @@ type nameAge struct {
 }
 
 var ddl = []string{
-	"CREATE TABLE companies (id integer PRIMARY KEY, name text)",
+	"CREATE TABLE companies (id integer PRIMARY KEY, name text, deleted_at datetime)",
 	"CREATE TABLE users (id integer PRIMARY KEY, name text, age integer, active numeric, company_id integer, updated_at datetime, deleted_at datetime)",
 	"CREATE TABLE toys (id integer PRIMARY KEY, toy_name text, owner_id integer)",
 }
 
 var seedSQL = []string{
-	"INSERT INTO companies (id, name) VALUES (1,'c1'),(2,'c2')",
+	"INSERT INTO companies (id, name, deleted_at) VALUES (1,'c1',NULL),(2,'c2',NULL),(3,'c3','2030-02-03 04:05:06+00:00')",
 	"INSERT INTO users (id, name, age, active, company_id, deleted_at) VALUES " +
 		"(1,'u1',20,1,1,NULL),(2,'u2',30,0,1,NULL),(3,'u3',40,1,2,NULL)," +
-		"(4,'u4',50,0,2,NULL),(5,'u5',20,1,1,'2030-01-02 03:04:05+00:00'),(6,'u1',60,1,2,NULL)",
+		"(4,'u4',50,0,2,NULL),(5,'u5',20,1,1,'2030-01-02 03:04:05+00:00'),(6,'u1',60,1,2,NULL),(7,'u7',35,1,3,NULL)",
 	"INSERT INTO toys (id, toy_name, owner_id) VALUES (1,'t1',1),(2,'t2',1),(3,'t3',4)",
 }
 
@@ -433,6 +436,8 @@ var calls = []callDef{
 	{text: `Joins("JOIN companies j4 …")`, fam: "joins", merge: "JOINS", f: func(db *gorm.DB) *gorm.DB {
 		return db.Joins("JOIN companies j4 ON j4.id = users.company_id")
 	}},
+	{text: `Unscoped().Joins("Company")`, fam: "joins", merge: "JOINS", f: func(db *gorm.DB) *gorm.DB { return db.Unscoped().Joins("Company") }},
+	{text: `Unscoped().InnerJoins("Company")`, fam: "joins", merge: "JOINS", f: func(db *gorm.DB) *gorm.DB { return db.Unscoped().InnerJoins("Company") }},
 	// Distinct / Unscoped
 	{text: `Distinct()`, fam: "distinct", merge: "", f: func(db *gorm.DB) *gorm.DB { return db.Distinct() }},
 	{text: `Distinct("name")`, fam: "distinct", merge: "", f: func(db *gorm.DB) *gorm.DB { return db.Distinct("name") }},
@@ -967,6 +972,23 @@ var fins = []finDef{
 		defer cancel()
 		var d []Toy
 		return db.Session(&gorm.Session{Initialized: true, Context: ctx, PrepareStmt: true}).Find(&d), &d
+	}},
+	// the same relation join with and without Unscoped (the ON filter of the soft-deleted Company differs)
+	{text: `Joins("Company").Find(&[]User)`, kind: "find", f: func(db *gorm.DB) (*gorm.DB, interface{}) {
+		var d []User
+		return db.Joins("Company").Find(&d), &d
+	}},
+	{text: `Unscoped().Joins("Company").Find(&[]User)`, kind: "find", f: func(db *gorm.DB) (*gorm.DB, interface{}) {
+		var d []User
+		return db.Unscoped().Joins("Company").Find(&d), &d
+	}},
+	{text: `InnerJoins("Company").Model(&User{}).Count`, kind: "count", f: func(db *gorm.DB) (*gorm.DB, interface{}) {
+		var n int64
+		return db.InnerJoins("Company").Model(&User{}).Count(&n), &n
+	}},
+	{text: `Unscoped().InnerJoins("Company").Model(&User{}).Count`, kind: "count", f: func(db *gorm.DB) (*gorm.DB, interface{}) {
+		var n int64
+		return db.Unscoped().InnerJoins("Company").Model(&User{}).Count(&n), &n
 	}},
 	// chains run under an already cancelled context: they fail, and must leave nothing behind
 	// (e.g. in the prepared statement cache shared by the handles of a PrepareStmt Open / Session)
@@ -2030,6 +2052,15 @@ func leadingOr(shape []bool) bool {
 	return false
 }
 
+func explicitModel(cs []int) bool {
+	for _, c := range cs {
+		if def(c).fam == "model" {
+			return true
+		}
+	}
+	return false
+}
+
 func hasRaw(cs []int) bool {
 	for _, c := range cs {
 		if def(c).fam == "raw" {
@@ -2179,7 +2210,9 @@ func genHistory(rt *rapid.T) History {
 		return x.calls
 	}
 	drawFin := func(handleCalls, chainCalls []int) int {
-		shared := holdsModel(handleCalls) && !holdsModel(chainCalls)
+		// the chain's Model is the handle's unless the chain names one itself (a finisher in the
+		// middle of the chain only sets Model = Dest when there is none yet)
+		shared := holdsModel(handleCalls) && !explicitModel(chainCalls)
 		// D (domain): a chain that carries raw SQL (Raw) is not finished with a write finisher. gorm does
 		// not build the UPDATE/DELETE/INSERT then but sends the raw text through Exec, and for a
 		// statement that is not DML the SQLite driver reports the row count of whatever DML ran last
